@@ -106,16 +106,6 @@ theorem pointwise_outside {α} (d N : List α) (F T a b : Nat) (haF : a < F) (hT
     simp only [List.getElem?_drop]
     exact hout _ (by omega)
 
-theorem mapIdxCtx_outside (g : Nat → TypeId → Tok → Tok) (top : TypeId) (l : List Tok) (F T : Nat)
-    (hg : ∀ i p tok, ¬ (F ≤ i ∧ i < T) → g i p tok = tok) (i : Nat) (hi : ¬ (F ≤ i ∧ i < T)) :
-    (mapIdxCtx g top l)[i]? = l[i]? := by
-  rw [mapIdxCtx_getElem?]
-  split
-  · rename_i h
-    rw [hg i _ _ hi, List.getD_eq_getElem?_getD, List.getElem?_eq_getElem h]; rfl
-  · rename_i h
-    exact (List.getElem?_eq_none (by omega)).symm
-
 /-! ### the non-strict versions (`withinNode`): the range may end just after the node's close token -/
 
 theorem splice_outside_le {α} (d S N : List α) (F T a b : Nat) (haF : a < F) (hFT : F ≤ T) (hTb : T ≤ b)
